@@ -103,6 +103,9 @@ func TestWorker(t *testing.T) {
 		// the run from (seed, run, mode)
 		rc.execSeed = uint64(rc.CaseTape.Choose(1 << 30)) // first draw: seed of the per-execution tapes
 		env.NewNetwork(Mix(rs, 4242))
+		// the time zone of the process is an input like any other: a function of
+		// (seed, run), so that replays see the same one
+		setRunZone(Mix(seed, uint64(i), 0x7a))
 		f(env, rc)
 		rc.finish()
 		b, err := json.Marshal(rc.Rec)
@@ -145,4 +148,16 @@ func TestMinimise(t *testing.T) {
 		t.Fatal(err)
 	}
 	fmt.Printf("MINIMISE ok tries=%d\n", tries)
+}
+
+var runZones = []string{"UTC", "UTC", "Europe/Berlin", "Asia/Tokyo", "America/Los_Angeles", "Asia/Kolkata", "Pacific/Chatham"}
+
+// setRunZone makes time.Local one of a few zones east and west of UTC (whole,
+// half and three-quarter hour offsets). Rows are stamped with time.Now() and the
+// SQLite driver stores a time in the zone of the value.
+func setRunZone(h uint64) {
+	name := runZones[h%uint64(len(runZones))]
+	if loc, err := time.LoadLocation(name); err == nil {
+		time.Local = loc
+	}
 }
